@@ -1,5 +1,130 @@
-(* placeholder, replaced below *)
-From Coq Require Import List.
-Theorem C05_placeholder : True.
-Proof. exact I. Qed.
-Print Assumptions C05_placeholder.
+(* C05 — Time-triggered validation matches the reference temporal semantics.
+
+   [tt_validate] (Planning/TTValidate.v) models TimeTriggeredPlanValidator._validate with _apply_effects, _apply_effect,
+   _states_in_interval, _instantiate_timing/_interval, on the repaired code (5249d13 011fe6a bec5108 74b68a3 e93aea2).
+   [tt_valid] (Planning/Temporal.v) is the reference semantics: dense time (Qc); events of one instant applied jointly
+   to the state in force before the instant; "the state in force at instant u" = the state produced by the last
+   happening strictly before u; a condition must hold at every instant of its (possibly open) interval; durations in
+   the (possibly open) duration interval whose bounds are evaluated in the state in force at the start; timed
+   effects are events, timed goals / state invariants / bounded types are conditions; goals in the final state.
+
+   Reading fixed for "conflicting assignments" (notes/C05.md): at one instant, per ground fluent, (i) two different
+   sources (plan steps; the problem's timed effects) assigning it conflict, (ii) the assignments of one source
+   combine as in C01, (iii) assignment + increase/decrease conflict; increases/decreases accumulate.
+
+   Side conditions of the composed theorem, both Boolean functions of (problem, plan):
+     [plan_times_ok]  start times >= 0 and no effect of a step is scheduled before the step starts (end - d with
+                      d > duration), timed effects not before 0;
+     [intervals_ok]   no condition interval is empty (start + d .. end - d' crossing over, or a single instant with an
+                      open end) or starts before 0.
+   [plan_typed_t]: every fired effect instance is well typed (Boolean fluents are only assigned Booleans). *)
+From Coq Require Import List ZArith NArith QArith Qcanon Bool.
+Import ListNotations.
+Require Import UPV.Core.Expr UPV.Core.Eval UPV.Core.Interp UPV.Planning.Problem UPV.Planning.Sem.
+Require Import UPV.Planning.Temporal UPV.Planning.TTValidate.
+Require Import UPV.Proofs.Step_proofs UPV.Proofs.Temporal_base UPV.Proofs.Temporal_dense UPV.Proofs.Temporal_joint
+               UPV.Proofs.Temporal_run UPV.Proofs.Temporal_proofs.
+Local Open Scope Qc_scope.
+
+(* 1. _states_in_interval returns exactly the trace entries in force at some instant of the interval, for left-open
+      and left-closed intervals, with or without upper bound, whatever the openness of the upper end (dense time) *)
+Theorem C05_states_in_interval_exact :
+  forall (tr : trace) (iv : ainterval),
+    NoDup (keys tr) -> In minus1 (keys tr) -> zq 0 <= ai_lo iv -> iv_nonempty iv = true ->
+    forall x s,
+      In (x, s) (states_in_interval tr (ai_lo iv) (ai_hi iv) (ai_lopen iv)) <->
+      In (x, s) tr /\ exists u, in_iv iv u /\ in_force tr x u.
+Proof. exact states_in_interval_exact. Qed.
+Print Assumptions C05_states_in_interval_exact.
+
+(* 2. all the effects of one instant are applied together to the pre-state: the loop of _apply_effects succeeds
+      exactly when the joint application has no conflict and then produces the jointly specified successor *)
+Theorem C05_apply_effects_joint :
+  forall P s (l : list tagged), forallb (wt_aeff P) (map snd l) = true ->
+    match tt_loop P s ([], []) l with
+    | Some (upd, _) => joint_ok P s l = true /\ forall f args, apply_upd s upd f args = joint_succ P s l f args
+    | None => joint_ok P s l = false
+    end.
+Proof. exact apply_effects_joint. Qed.
+Print Assumptions C05_apply_effects_joint.
+
+(* 2b. what a conflict is *)
+Theorem C05_joint_conflict_iff :
+  forall P s (l : list tagged) k,
+    joint_fluent P s l k = CFail <->
+    (exists x y, In x (assigners k l) /\ In y (assigners k l) /\ x <> y) \/
+    (avals k (map snd l) <> [] /\ deltas k (map snd l) <> []) \/
+    (is_bool_fluent P (fst k) = false /\ deltas k (map snd l) = [] /\
+       exists a b, In a (avals k (map snd l)) /\ In b (avals k (map snd l)) /\ a <> b) \/
+    (avals k (map snd l) = [] /\ deltas k (map snd l) <> [] /\ ~ base_num (s (fst k) (snd k)) (deltas k (map snd l))).
+Proof. exact joint_conflict_iff. Qed.
+Print Assumptions C05_joint_conflict_iff.
+
+(* 3. the duration constraint: open/closed bounds, evaluated in the state in which the constraint is checked ... *)
+Theorem C05_duration_check :
+  forall sc TP s bind d dur, holds_in sc TP s bind (dur_expr d dur) = dur_ok sc TP s bind d dur.
+Proof. exact duration_check. Qed.
+Print Assumptions C05_duration_check.
+
+(* 4. ... and a condition at an instant t (duration constraint, precondition, at-start/at-end/intermediate condition)
+      is evaluated in the state produced by the last happening strictly before t: before the effects of t *)
+Theorem C05_conditions_before_effects :
+  forall sc TP (s0 : state) (tr : trace) (t : Qc) bind e,
+    asc_from minus1 (keys tr) -> zq 0 <= t ->
+    check_cond sc TP ((minus1, s0) :: tr) {| tc_iv := point_interval t; tc_bind := bind; tc_expr := e |} =
+    holds_in sc TP (state_at s0 tr t) bind e.
+Proof. exact conditions_before_effects. Qed.
+Print Assumptions C05_conditions_before_effects.
+
+(* 5. the composed theorem *)
+Theorem C05_tt_validate_correct :
+  forall sc TP (s0 : state) (pi : tplan),
+    supported_plan TP pi = true -> plan_typed_t sc TP pi ->
+    (tt_validate sc TP s0 pi = VALID <-> tt_valid sc TP s0 pi).
+Proof. exact tt_validate_correct. Qed.
+Print Assumptions C05_tt_validate_correct.
+
+(* 6. the model always terminates with a verdict *)
+Theorem C05_tt_validate_total :
+  forall sc TP (s0 : state) (pi : tplan),
+    plan_times_ok TP pi = true -> plan_typed_t sc TP pi -> tt_validate sc TP s0 pi <> OUT_OF_FUEL.
+Proof. exact tt_validate_total. Qed.
+Print Assumptions C05_tt_validate_total.
+
+(* 7. the executable reference used as the oracle (sample instants) decides the dense-time definition *)
+Theorem C05_reference_executable :
+  forall sc TP (s0 : state) (pi : tplan),
+    plan_times_ok TP pi = true -> (tt_valid_b sc TP s0 pi = true <-> tt_valid sc TP s0 pi).
+Proof. exact tt_valid_b_spec. Qed.
+Print Assumptions C05_reference_executable.
+
+(* ---------------- non-vacuity: a durative action with a left-open intermediate condition, an instantaneous action
+   that makes the condition true strictly inside the interval, coinciding end effects *)
+Definition ex_f : expr := EFluent 0%N [].
+Definition ex_TP : tproblem :=
+  {| tp_base := {| p_objs := []; p_ifun := [];
+                   p_fluents := [ {| fd_id := 0%N; fd_sig := []; fd_ty := FBool |}; {| fd_id := 1%N; fd_sig := []; fd_ty := FBool |} ];
+                   p_actions := [ (1%N, {| a_params := []; a_pre := [];
+                                           a_effs := [ {| e_fl := 0%N; e_args := []; e_val := EBool true; e_cond := EBool true;
+                                                          e_kind := KAssign; e_vars := []; e_isbool := true |} ] |}) ];
+                   p_goals := [EFluent 1%N []]; p_invs := [] |};
+     tp_dur := [ (0%N, {| d_params := []; d_lo := EInt 10; d_hi := EInt 10; d_lopen := false; d_ropen := false;
+                          d_conds := [ ({| ti_lo := {| tm_anchor := AStart; tm_delay := zq 2 |};
+                                           ti_hi := {| tm_anchor := AEnd; tm_delay := zq (-1) |};
+                                           ti_lopen := true; ti_ropen := false |}, [ex_f]) ];
+                          d_effs := [ ({| tm_anchor := AEnd; tm_delay := zq 0 |},
+                                       [ {| e_fl := 1%N; e_args := []; e_val := EBool true; e_cond := EBool true;
+                                            e_kind := KAssign; e_vars := []; e_isbool := true |} ]) ] |}) ];
+     tp_teffs := []; tp_tgoals := [] |}.
+Definition ex_s0 : state := fun f _ => Some (VBool false).
+Definition ex_plan (t : Z) : tplan :=
+  [ {| ps_start := zq 0; ps_act := 0%N; ps_args := []; ps_dur := Some (zq 10) |};
+    {| ps_start := zq t; ps_act := 1%N; ps_args := []; ps_dur := None |} ].
+
+(* the condition over (start+2, end-1] fails when f becomes true only at 5 (DESIGN.md #10, repaired), holds when
+   f becomes true at 2 (the lower bound is excluded) *)
+Example C05_nonvacuous :
+  supported_plan ex_TP (ex_plan 5) = true /\ supported_plan ex_TP (ex_plan 2) = true /\
+  tt_validate true ex_TP ex_s0 (ex_plan 5) = INVALID /\ tt_valid_b true ex_TP ex_s0 (ex_plan 5) = false /\
+  tt_validate true ex_TP ex_s0 (ex_plan 2) = VALID /\ tt_valid_b true ex_TP ex_s0 (ex_plan 2) = true.
+Proof. vm_compute. repeat split; reflexivity. Qed.
